@@ -10,7 +10,6 @@ import (
 	"google.golang.org/grpc"
 )
 
-
 // H_C11_server_abandon: a streaming handler returns after consuming k of the n bodies the
 // peer sends; the peer keeps sending the rest and a trailer, then issues a probe unary
 // request. The probe's reply must be written and Serve must still end cleanly.
